@@ -407,6 +407,14 @@ class ConfigParser(object):
 
     self._default_range_start = MultiRangeDefinitionTuple(u">", 0.0)
 
+  def _set_value(self, cp, override):
+    try:
+      cp[override.section][override.key] = override.value.strip()
+    except ValueError as e:
+      # configparser checks the place-holder syntax of a value when it is set
+      raise ConfigOverrideException("Entry [{section}]: '{key}' cannot be given the value '{value}': {msg}".format(
+        section = override.section, key = override.key, value = override.value, msg = e))
+
   def _init_config_parser(self, fp, overrides, additional):
     cp = _RawConfigParser()
     # cp.readfp(fp)
@@ -436,7 +444,7 @@ class ConfigParser(object):
           cp.remove_section(override.section)
       else:
         # ... as in a file, blanks around a value are not part of it ('-e "Tabulation:target = GULP"').
-        cp[override.section][override.key] = override.value.strip()
+        self._set_value(cp, override)
 
     # Add additional values
     for override in additional:
@@ -448,7 +456,7 @@ class ConfigParser(object):
       # [Variables] is the parser's default section: it always exists and cannot be added.
       if not cp.has_section(override.section) and override.section != cp.default_section:
         cp.add_section(override.section)
-      cp[override.section][override.key] = override.value.strip()
+      self._set_value(cp, override)
 
     return cp
 
